@@ -12,8 +12,197 @@ MIN_OBLIGATIONS = 4
 LEVEL = 'other'
 
 
+def same_value(cx, name, pc, a, b, function, what):
+    """loaded value b agrees with original a: numbers equal, lists of equal length with equal generic elements, None/str identical"""
+    from ..symex import Seq, PList
+    if isinstance(a, (Seq, PList)) or isinstance(b, (Seq, PList)):
+        la = a.n if isinstance(a, Seq) else len(a.items) if isinstance(a, PList) else None
+        lb = b.n if isinstance(b, Seq) else len(b.items) if isinstance(b, PList) else None
+        if la is None or lb is None:
+            cx.ob(name + ".is-a-list", pc, FALSE, function=function, statement="%s re-loads as a list" % what); return
+        cx.ob(name + ".length", pc, eq(lift(la), lift(lb)), function=function, statement="%s re-loads with the same length" % what)
+        if isinstance(a, PList) and isinstance(b, PList):
+            for i, (x, y) in enumerate(zip(a.items, b.items)): same_value(cx, "%s.%d" % (name, i), pc, x, y, function, what)
+            return
+        j = var('j.' + name, 'I')
+        ga = a.fn(j) if isinstance(a, Seq) else None; gb = b.fn(j) if isinstance(b, Seq) else None
+        if ga is None or gb is None:
+            cx.ob(name + ".element", pc, FALSE, function=function, statement="%s: list kinds differ" % what); return
+        same_value(cx, name + ".element", list(pc) + [j >= 0, j < lift(la)], ga, gb, function, what + " (generic element)")
+        return
+    if isinstance(a, T) or isinstance(b, T) or (is_num(a) and is_num(b) and not isinstance(a, bool)):
+        if not (is_num(a) and is_num(b)):
+            cx.ob(name, pc, FALSE, function=function, statement="%s re-loads as a number (%r vs %r)" % (what, a, b)); return
+        cx.ob(name, pc, eq(lift(a), lift(b)), function=function, statement="%s re-loads unchanged" % what); return
+    cx.ob(name, pc, blit(type(a) is type(b) and a == b), kind='paths', function=function, statement="%s re-loads unchanged (%r vs %r)" % (what, a, b))
+
+
+def is_num(v): return isinstance(v, T) or (isinstance(v, (int, float)) and not isinstance(v, bool))
+
+
+def symbolic_round_trips(cx):
+    """the REAL save/load functions executed against the persistence model (pvc.iomodel): which field goes to which key/column and
+    back.  Library behaviour is assumed (iomodel.ASSUMPTIONS); the data flow of the package's own code is proved for every value."""
+    from ..symex import Seq, PList
+    from .. import iomodel
+    src = cx.src
+    for a in iomodel.ASSUMPTIONS: cx.assume_note(a)
+    # ------------------------------------------------------------------ PervaporationFunction: binary and JSON
+    for q in ('PervaporationFunction.save', 'PervaporationFunction.load', 'PervaporationFunction.safe_save', 'PervaporationFunction.safe_load'): cx.under_contract(q)
+    def pf():
+        return Obj('PervaporationFunction', dict(n=var('n', 'I'), m=var('m', 'I'), alpha=var('alpha'), a=Seq(var('la', 'I'), lambda i: app('a', lift(i)), tag=('a',)),
+                                                 b=Seq(var('lb', 'I'), lambda i: app('b', lift(i)), tag=('b',))), owner='external')
+    W.check_layout(src, 'PervaporationFunction', ['n', 'm', 'alpha', 'a', 'b'])
+    for mode, sv, ld in (('json', 'safe_save', 'safe_load'), ('binary', 'save', 'load')):
+        f0 = pf()
+        def run(ex, f0=f0, sv=sv, ld=ld):
+            path = Opaque('path')
+            ex.call_function(src.find('PervaporationFunction.' + sv), [path], {}, self_obj=f0, inline=True)
+            return ex.call_function(src.find('PervaporationFunction.' + ld), [path], {}, cls='PervaporationFunction', inline=True)
+        ps = cx.explore(run, pre=[var('la', 'I') >= 0, var('lb', 'I') >= 0])
+        fn = 'PervaporationFunction.' + ld
+        none_raise(cx, "function.%s.never-raises" % mode, ps, function=fn, statement="saving and re-loading a permeance function does not fail")
+        rs = returns(ps)
+        cx.ob("function.%s.paths" % mode, [], blit(len(rs) >= 1 and all(isinstance(r.value, Obj) and r.value.cls == 'PervaporationFunction' for r in rs)), kind='paths', function=fn)
+        for k, r in enumerate(rs):
+            if not (isinstance(r.value, Obj) and r.value.cls == 'PervaporationFunction'): continue
+            for fld in ('n', 'm', 'alpha', 'a', 'b'):
+                same_value(cx, "function.%s.%d.%s" % (mode, k, fld), r.pc, f0.f[fld], r.value.f.get(fld), fn, "PervaporationFunction.%s" % fld)
+            cx.ob("function.%s.%d.fresh" % (mode, k), [], blit(r.value is not f0), kind='frame', function=fn)
+            writes = [w for w in r.ex.ext_writes]
+            cx.ob("function.%s.%d.original-untouched" % (mode, k), [], blit(not writes), kind='frame', function='PervaporationFunction.' + sv, writes=str(writes)[:200])
+    # ------------------------------------------------------------------ Conditions: JSON
+    for q in ('Conditions.safe_save', 'Conditions.safe_load'): cx.under_contract(q)
+    for ct in ('weight', 'molar'):
+        for pt, ppv in ((False, False), (True, False), (False, True)):
+            c0 = W.conditions(src, comp_type=ct, perm_T=pt, perm_p=ppv)
+            def run(ex, c0=c0):
+                path = Opaque('path')
+                ex.call_function(src.find('Conditions.safe_save'), [path], {}, self_obj=c0, inline=True)
+                return ex.call_function(src.find('Conditions.safe_load'), [path], {}, cls='Conditions', inline=True)
+            pre = [var('x0') >= 0, var('x0') <= 1]
+            ps = cx.explore(run, pre=pre)
+            tag = "conditions.%s.%s" % (ct, 'Tp' if pt else 'pp' if ppv else 'vacuum')
+            fn = 'Conditions.safe_load'
+            none_raise(cx, tag + ".never-raises", ps, function=fn)
+            rs = returns(ps)
+            cx.ob(tag + ".paths", [], blit(len(rs) >= 1 and all(isinstance(r.value, Obj) and r.value.cls == 'Conditions' for r in rs)), kind='paths', function=fn)
+            for k, r in enumerate(rs):
+                if not (isinstance(r.value, Obj) and r.value.cls == 'Conditions'): continue
+                for fld in ('membrane_area', 'initial_feed_temperature', 'initial_feed_amount', 'permeate_temperature', 'permeate_pressure'):
+                    same_value(cx, "%s.%d.%s" % (tag, k, fld), r.pc, c0.f[fld], r.value.f.get(fld), fn, "Conditions.%s" % fld)
+                ic = r.value.f.get('initial_feed_composition')
+                okc = isinstance(ic, Obj) and ic.cls == 'Composition'
+                cx.ob("%s.%d.composition.is-a-composition" % (tag, k), [], blit(okc), kind='paths', function=fn)
+                if okc:
+                    same_value(cx, "%s.%d.composition.p" % (tag, k), r.pc, c0.f['initial_feed_composition'].f['p'], ic.f['p'], fn, "initial feed composition value")
+                    same_value(cx, "%s.%d.composition.type" % (tag, k), r.pc, c0.f['initial_feed_composition'].f['type'], ic.f['type'], fn, "initial feed composition type")
+                cx.ob("%s.%d.original-untouched" % (tag, k), [], blit(not r.ex.ext_writes), kind='frame', function='Conditions.safe_save')
+
+
+JJ = var('jj', 'I')
+
+
+def observe(ex, lst, n_expected=None):
+    """(length, element at the generic index jj) of a list-like value, read through the executor (so that IndexError / element
+    conditions are path outcomes)"""
+    from ..symex import Seq, PList, Post, _len
+    if isinstance(lst, Obj) and lst.cls == '$Series':
+        from .. import iomodel
+        return iomodel.model_len(ex, lst), iomodel.series_get(ex, lst, JJ)
+    n = _len(ex, lst)
+    return n, ex.index(lst, JJ)
+
+
+def to_weight_spec(p, typ, M1, M2):
+    if typ == 'weight': return p
+    return (M1 * p) / (M1 * p + M2 * (1 - p))
+
+
+def curve_round_trips(cx):
+    from ..symex import Seq, PList, Fn
+    from ..contracts import process as CP
+    from .. import iomodel
+    src = cx.src
+    for q in ('DiffusionCurve.save', 'DiffusionCurve.from_frame', 'DiffusionCurveSet.load'): cx.under_contract(q)
+    N = var('N', 'I')
+    KG = 'kg/(m2*h*kPa)'
+    for ct in ('weight', 'molar'):
+        for mode in ('vacuum', 'temperature', 'pressure'):
+            tag = "curve.%s.%s" % (ct, mode)
+            Tp = var('Tp') if mode == 'temperature' else None; pp = var('pp') if mode == 'pressure' else None
+            orig = {}
+            def run(ex, ct=ct, Tp=Tp, pp=pp, orig=orig):
+                mix = ex.getattr(Fn('class', name='Mixtures'), 'H2O_EtOH')
+                fc = Seq(N, lambda i: Obj('Composition', dict(p=app('x', lift(i)), type=ct), owner='external'), owner='external')
+                fl = Seq(N, lambda i: (app('J1', lift(i)), app('J2', lift(i))), owner='external')
+                pm = Seq(N, lambda i: (Obj('Permeance', dict(value=app('P1', lift(i)), units=KG), owner='external'), Obj('Permeance', dict(value=app('P2', lift(i)), units=KG), owner='external')), owner='external')
+                c = W.mk(src, 'DiffusionCurve', mixture=mix, membrane_name='m', feed_temperature=var('T'), feed_compositions=fc, partial_fluxes=fl, permeate_temperature=Tp,
+                         permeate_pressure=pp, permeances=pm, comments='c')
+                orig.update(curve=c, mix=mix)
+                ex.assume(band(JJ >= 0, JJ < N), 'generic element index')
+                # class invariants of the stored objects (established by their constructors)
+                ex.assume(band(app('x', JJ) >= 0, app('x', JJ) <= 1, app('P1', JJ) >= 0, app('P2', JJ) >= 0, app('x', lift(0)) >= 0, app('x', lift(0)) <= 1), 'class invariants of the curve elements')
+                path = iomodel.mkpath((Opaque('dir'), 'curves.csv'))
+                ex.call_function(src.find('DiffusionCurve.save'), [path], {}, self_obj=c, inline=True)
+                back = ex.call_function(src.find('DiffusionCurveSet.load'), [path], {}, cls='DiffusionCurveSet', inline=True)
+                curves = back.f['diffusion_curves']
+                n_curves = _plen(ex, curves)
+                b0 = ex.index(curves, 0)
+                obs = dict(set_name=back.f['name'], n_curves=n_curves, curve=b0)
+                for fld in ('feed_compositions', 'partial_fluxes', 'permeances'):
+                    obs[fld] = observe(ex, b0.f[fld])
+                return obs
+            ps = cx.explore(run, contracts={'__class_invariants__': CP.CLASS_INVARIANTS}, pre=[N >= 1])
+            fn = 'DiffusionCurveSet.load'
+            none_raise(cx, tag + ".never-raises", ps, function=fn, statement="saving a curve and re-loading it as a set does not fail (N >= 1 points)")
+            rs = returns(ps)
+            cx.ob(tag + ".paths", [], blit(len(rs) >= 1), kind='paths', function=fn)
+            c0 = orig.get('curve'); mix = orig.get('mix')
+            if c0 is None: continue
+            M1 = mix.f['first_component'].f['molecular_weight']; M2 = mix.f['second_component'].f['molecular_weight']
+            for k, r in enumerate(rs):
+                o = r.value; b0 = o['curve']; t = "%s.%d" % (tag, k)
+                cx.ob(t + ".one-curve", [], blit(o['n_curves'] == 1 and isinstance(b0, Obj) and b0.cls == 'DiffusionCurve'), kind='paths', function=fn)
+                if not (isinstance(b0, Obj) and b0.cls == 'DiffusionCurve'): continue
+                cx.ob(t + ".mixture", [], blit(b0.f['mixture'] is mix), kind='paths', function='DiffusionCurve.from_frame', statement="the re-loaded curve refers to the same built-in mixture")
+                for fld in ('membrane_name', 'feed_temperature', 'permeate_temperature', 'permeate_pressure'):
+                    same_value(cx, "%s.%s" % (t, fld), r.pc, c0.f[fld], b0.f[fld], 'DiffusionCurve.from_frame', "DiffusionCurve.%s" % fld)
+                # compositions: same length, re-loaded as mass fractions of the physically identical composition
+                n, el = o['feed_compositions']
+                cx.ob(t + ".compositions.length", r.pc, eq(lift(n), N), function='DiffusionCurve.from_frame')
+                okc = isinstance(el, Obj) and el.cls == 'Composition'
+                cx.ob(t + ".compositions.element-type", [], blit(okc and el.f['type'] == 'weight'), kind='paths', function='DiffusionCurve.from_frame', statement="curves re-load as mass fractions")
+                if okc and is_num(el.f['p']):
+                    cx.ob(t + ".compositions.element", r.pc, eq(lift(el.f['p']), to_weight_spec(app('x', JJ), ct, lift(M1), lift(M2))), function='DiffusionCurve.from_frame',
+                          statement="re-loaded composition j is the mass fraction of the stored composition j")
+                n, el = o['partial_fluxes']
+                cx.ob(t + ".fluxes.length", r.pc, eq(lift(n), N), function='DiffusionCurve.from_frame')
+                okf = isinstance(el, tuple) and len(el) == 2 and all(is_num(x) for x in el)
+                cx.ob(t + ".fluxes.shape", [], blit(okf), kind='paths', function='DiffusionCurve.from_frame')
+                if okf:
+                    cx.ob(t + ".fluxes.element", r.pc, band(eq(lift(el[0]), app('J1', JJ)), eq(lift(el[1]), app('J2', JJ))), function='DiffusionCurve.from_frame', statement="both partial fluxes of point j re-load unchanged")
+                n, el = o['permeances']
+                cx.ob(t + ".permeances.length", r.pc, eq(lift(n), N), function='DiffusionCurve.from_frame')
+                okp = isinstance(el, tuple) and len(el) == 2 and all(isinstance(x, Obj) and x.cls == 'Permeance' and is_num(x.f['value']) for x in el)
+                cx.ob(t + ".permeances.shape", [], blit(okp), kind='paths', function='DiffusionCurve.from_frame')
+                if okp:
+                    cx.ob(t + ".permeances.element", r.pc, band(eq(lift(el[0].f['value']), app('P1', JJ)), eq(lift(el[1].f['value']), app('P2', JJ))), function='DiffusionCurve.from_frame',
+                          statement="both permeances of point j re-load unchanged")
+                    cx.ob(t + ".permeances.units", [], blit(el[0].f['units'] == KG and el[1].f['units'] == KG), kind='paths', function='DiffusionCurve.from_frame', statement="units re-load unchanged")
+                cx.ob(t + ".original-untouched", [], blit(not r.ex.ext_writes), kind='frame', function='DiffusionCurve.save', writes=str(r.ex.ext_writes)[:200])
+            if rs: cx.cover(tag, rs[0].pc)
+
+
+def _plen(ex, v):
+    from ..symex import _len
+    return _len(ex, v)
+
+
 def obligations(cx):
     src = cx.src
+    symbolic_round_trips(cx)
+    curve_round_trips(cx)
     gp = cx.under_contract('ProcessModel._generate_process_path', how="AST-level frame argument")
     sv = cx.under_contract('ProcessModel.save', how="AST-level frame argument")
     # _generate_process_path returns a path it has just created with exist_ok=False
